@@ -347,6 +347,20 @@ MUTANTS += [
             if self.get_node_by_id(int(node_id)) is None:""", 'revert 80467fa'),
 ]
 
+MUTANTS += [
+    ('fixrev_refused_add_attacker_id', ['C09'], AG,
+     """        if new_id in self._id_to_attacker:
+            raise ValueError(f'Attacker index {attacker_id} already in use.')
+""",
+     """        attacker.id = new_id
+        if new_id in self._id_to_attacker:
+            raise ValueError(f'Attacker index {attacker_id} already in use.')
+""", 'revert 62affdc (with the in-graph refusal moved behind it)'),
+    ('fixrev_readd_attacker', ['C09', 'C11'], AG,
+     """        if any(attacker is existing for existing in self.attackers):""",
+     """        if False:""", 'revert d67b153'),
+]
+
 # ---- compiler (C04, C17) -------------------------------------------------------
 MUTANTS += [
     ('fixrev_ttc_product', ['C04'], MV,
